@@ -658,7 +658,7 @@ def sessions_two_windows(args):
 
 def run(ctx):
     rep = Report()
-    huge = [(ctx.tier, ctx.seed, hide, h, w, rich) for hide in (True, False) for (h, w, rich) in ((140, 12, False), (130, 3, True), (100, 80, True), (129, 40, False), (260, 4, False), (300, 2, True))]
+    huge = [(ctx.tier, ctx.seed, hide, h, w, rich) for hide in (True, False) for (h, w, rich) in ((140, 12, False), (130, 3, True), (100, 80, True), (129, 40, False), (260, 4, False), (300, 2, True), (150, 125, True))]
     for d in ctx.pmap(sessions_huge, huge):
         rep.merge(d, "screens_of_100_to_140_rows")
     for d in ctx.pmap(sessions_two_windows, [(ctx.tier, ctx.seed, hide, p, 8) for hide in (True, False) for p in range(8)]):
